@@ -62,6 +62,7 @@ type childPlan struct {
 	Recover bool
 	Close   bool // close the node cleanly after the workload and exit 0
 	FailAt  int  // the FailAt-th store write returns an error
+	Snap    bool // take a raft snapshot right before the clean stop (nothing is applied after it)
 }
 
 type ackLine struct {
@@ -116,7 +117,7 @@ func crashChild(arg string) {
 			}
 			continue
 		}
-		snaps, already := n.VApply(lg[j].index, lg[j].evs)
+		snaps, already := n.VApplyT(lg[j].index, lg[j].term, lg[j].evs)
 		writeAck(acks, j, snaps, already)
 	}
 	if p.FailAt > 0 {
@@ -161,6 +162,13 @@ func raftChild(p childPlan, acks *os.File) {
 	}
 	if p.Recover || p.Close {
 		fmt.Println("DONE", n.VBalloonVersion())
+		if p.Snap {
+			if err := n.VForceSnapshot(); err != nil {
+				fmt.Println("SNAPSHOT-NOTE", err) // e.g. nothing new to snapshot
+			} else {
+				fmt.Println("SNAPSHOT-TAKEN")
+			}
+		}
 		if err := n.Close(true); err != nil {
 			fmt.Println("CLOSEERR", err)
 			os.Exit(5)
@@ -236,7 +244,7 @@ func crashCmd(out *cq.Out, seed uint64, tier string) {
 		var refSnaps [][]*balloon.Snapshot
 		for j, e := range lg {
 			seqBefore := ref.VStore().LastWALSequenceNumber()
-			s, _ := ref.VApply(e.index, e.evs)
+			s, _ := ref.VApplyT(e.index, e.term, e.evs)
 			// "immediately before or after the storage write": the apply must reach the engine as ONE write (one
 			// write-ahead-log record); several records mean there are instants in between at which a crash leaves
 			// part of an insertion on disk
@@ -304,7 +312,7 @@ func crashCmd(out *cq.Out, seed uint64, tier string) {
 				for j := from; j < m && ok; j++ {
 					var snaps []*balloon.Snapshot
 					var already bool
-					p, pm := cq.Catch(func() { snaps, already = n.VApply(lg[j].index, lg[j].evs) })
+					p, pm := cq.Catch(func() { snaps, already = n.VApplyT(lg[j].index, lg[j].term, lg[j].evs) })
 					if p {
 						out.Violate("C07:replay-panic", "replay after the crash panicked: "+pm, desc)
 						ok = false
@@ -385,7 +393,7 @@ func crashCmd(out *cq.Out, seed uint64, tier string) {
 				// replay of the whole log: everything not yet applied is applied once, with the versions of the committed log
 				want := uint64(0)
 				for j := 0; j < m; j++ {
-					snaps, already := n.VApply(lg[j].index, lg[j].evs)
+					snaps, already := n.VApplyT(lg[j].index, lg[j].term, lg[j].evs)
 					if !already && len(snaps) > 0 && snaps[0].Version != want {
 						out.Violate("C05:version-not-dense:after-failed-store-write", fmt.Sprintf("on replay after a failed store write entry %d received version %d, the committed log gives it %d", j, snaps[0].Version, want), desc)
 						break
